@@ -430,4 +430,100 @@ Section Gcc.
         simpl. destruct (worker_behaved guess w Hw) as [ty ->]. rewrite map_app, IH by assumption. reflexivity. }
       rewrite concat_map_flat. apply flat_map_perm, Hp.
   Qed.
+
+  (** gcov failures (fix 1aab954): the worker directory is emptied, the item contributes nothing, the latch is untouched *)
+  Definition good (items : list gitem) : list gitem := filter (fun it => gi_run_ok it = true) items.
+  Lemma good_cons_ok it items : gi_run_ok it = true -> good (it :: items) = it :: good items.
+  Proof. intros H. unfold good. rewrite filter_cons, decide_True by assumption. reflexivity. Qed.
+  Lemma good_cons_failed it items : gi_run_ok it = false -> good (it :: items) = good items.
+  Proof. intros H. unfold good. rewrite filter_cons, decide_False by congruence. reflexivity. Qed.
+  Lemma good_app a b : good (a ++ b) = good a ++ good b.
+  Proof. apply filter_app. Qed.
+  Lemma good_good items : good (good items) = good items.
+  Proof.
+    induction items as [|it items IH]; [reflexivity|]. destruct (gi_run_ok it) eqn:E.
+    - rewrite good_cons_ok by assumption. rewrite good_cons_ok by assumption. rewrite IH. reflexivity.
+    - rewrite good_cons_failed by assumption. exact IH.
+  Qed.
+  Lemma good_concat parts : good (concat parts) = concat (map good parts).
+  Proof. induction parts as [|w parts IH]; [reflexivity|]. simpl. rewrite good_app, IH. reflexivity. Qed.
+  Lemma good_perm items items' : items ≡ₚ items' -> good items ≡ₚ good items'.
+  Proof.
+    induction 1 as [|x l l' _ IH|x y l|l1 l2 l3 _ IH1 _ IH2].
+    - reflexivity.
+    - destruct (gi_run_ok x) eqn:E; [rewrite !good_cons_ok by assumption; constructor; exact IH|
+                                     rewrite !good_cons_failed by assumption; exact IH].
+    - destruct (gi_run_ok x) eqn:Ex, (gi_run_ok y) eqn:Ey;
+        rewrite ?good_cons_ok, ?good_cons_failed by assumption;
+        rewrite ?good_cons_ok, ?good_cons_failed by assumption; try reflexivity. constructor.
+    - etransitivity; eassumption.
+  Qed.
+
+  Lemma step_failed guess ty d it : gi_run_ok it = false -> step guess ty d it = Ok (ty, [], None).
+  Proof. intros Hr. unfold gcc_step. rewrite Hr. reflexivity. Qed.
+  Lemma worker_skip_failed guess ty d it items :
+    gi_run_ok it = false -> worker guess ty d (it :: items) = worker guess ty [] items.
+  Proof.
+    intros Hr. cbn [gcc_worker]. rewrite step_failed by assumption. cbn [obind].
+    destruct (worker guess ty [] items) as [[[ty' d'] b]| | |]; reflexivity.
+  Qed.
+  Lemma worker_multi_f guess items :
+    Forall multi_behaved (good items) ->
+    worker guess GMultiple [] items = Ok (GMultiple, [], map (results guess) (good items)).
+  Proof.
+    induction items as [|it items IH]; intros Hf; [reflexivity|]. destruct (gi_run_ok it) eqn:E.
+    - rewrite good_cons_ok in * by assumption. apply Forall_cons in Hf as [Hi Hf].
+      cbn [gcc_worker]. rewrite step_multi by assumption. cbn [obind]. rewrite IH by assumption. reflexivity.
+    - rewrite good_cons_failed in * by assumption. rewrite worker_skip_failed by assumption. apply IH, Hf.
+  Qed.
+  Lemma worker_single_f guess items :
+    Forall single_behaved (good items) ->
+    worker guess GSingle [] items = Ok (GSingle, [], map (results guess) (good items)).
+  Proof.
+    induction items as [|it items IH]; intros Hf; [reflexivity|]. destruct (gi_run_ok it) eqn:E.
+    - rewrite good_cons_ok in * by assumption. apply Forall_cons in Hf as [Hi Hf].
+      cbn [gcc_worker]. rewrite step_single by assumption. cbn [obind]. rewrite IH by assumption. reflexivity.
+    - rewrite good_cons_failed in * by assumption. rewrite worker_skip_failed by assumption. apply IH, Hf.
+  Qed.
+  Lemma worker_behaved_f guess items :
+    behaved (good items) -> exists ty, worker guess GUnknown [] items = Ok (ty, [], map (results guess) (good items)).
+  Proof.
+    induction items as [|it items IH]; intros Hb; [eexists; reflexivity|]. destruct (gi_run_ok it) eqn:E.
+    - destruct Hb as [Hs|[Hm Hfirst]]; rewrite good_cons_ok in * by assumption.
+      + pose proof Hs as Hs'. apply Forall_cons in Hs' as [(Hr & c & rs & Hl & Hp) _].
+        rewrite (worker_latch_single _ _ _ c); [|assumption|rewrite Hl; simpl; rewrite decide_True; reflexivity].
+        rewrite worker_single_f by (rewrite good_cons_ok by assumption; assumption).
+        rewrite good_cons_ok by assumption. eexists; reflexivity.
+      + rewrite worker_latch_multi by assumption.
+        rewrite worker_multi_f by (rewrite good_cons_ok by assumption; assumption).
+        rewrite good_cons_ok by assumption. eexists; reflexivity.
+    - rewrite good_cons_failed in * by assumption. rewrite worker_skip_failed by assumption. apply IH, Hb.
+  Qed.
+
+  Notation out guess := (fun w => match worker guess GUnknown [] w with Ok (_, _, b) => b | _ => [] end).
+  Lemma gcc_report_with_failures guess m (parts : list (list gitem)) items bs :
+    Forall (fun w => behaved (good w)) parts -> concat parts ≡ₚ items ->
+    bs ≡ₚ concat (map (out guess) parts) ->
+    obs_map (add_batches m bs) = obs_map (add_results m (flat_map (results guess) (good items))).
+  Proof.
+    intros Hb Hp Hbs. rewrite (add_batches_perm_obs _ _ _ Hbs), add_batches_concat.
+    apply add_results_perm_obs.
+    assert (concat (map (out guess) parts) = map (results guess) (good (concat parts))) as ->.
+    { clear Hp Hbs. induction parts as [|w parts IH]; [reflexivity|]. apply Forall_cons in Hb as [Hw Hb].
+      simpl. destruct (worker_behaved_f guess w Hw) as [ty ->]. rewrite good_app, map_app, IH by assumption. reflexivity. }
+    rewrite concat_map_flat. apply flat_map_perm, good_perm, Hp.
+  Qed.
+  (* the report of a run with failing items equals the report of the run without them, for every split over workers *)
+  Lemma gcc_failed_item_contributes_nothing guess m (parts : list (list gitem)) bs bs' :
+    Forall (fun w => behaved (good w)) parts ->
+    bs ≡ₚ concat (map (out guess) parts) ->
+    bs' ≡ₚ concat (map (out guess) (map good parts)) ->
+    obs_map (add_batches m bs) = obs_map (add_batches m bs').
+  Proof.
+    intros Hb Hbs Hbs'.
+    rewrite (gcc_report_with_failures guess m parts (concat parts) bs Hb (reflexivity _) Hbs).
+    rewrite (gcc_report_with_failures guess m (map good parts) (concat (map good parts)) bs'); [| |reflexivity|exact Hbs'].
+    - rewrite <- good_concat, good_good. reflexivity.
+    - apply Forall_fmap. eapply Forall_impl; [exact Hb|]. intros w Hw. simpl. rewrite good_good. exact Hw.
+  Qed.
 End Gcc.
